@@ -308,6 +308,34 @@ func (w *c05World) opRsvUpdate(dimsMayChange bool) bool {
 	return true
 }
 
+// opRsvMove: a placed reservation is re-placed on another node under the same uid (the scheduler-wide handler
+// documents this as an extended multi-scheduler case: "available -> available with different nodeName (node
+// migration)", handled as delete-then-add). Only generated in the cases that enable node moves.
+func (w *c05World) opRsvMove() bool {
+	var cand []*c05RsvSlot
+	for _, s := range w.rsvs {
+		if c05RsvAvailable(s.cur) && s.cur.DeletionTimestamp == nil {
+			cand = append(cand, s)
+		}
+	}
+	if len(cand) == 0 || len(w.nodes) < 2 {
+		return false
+	}
+	s := kit.Pick(w.r, cand)
+	from := s.cur.Status.NodeName
+	for {
+		if n := kit.Pick(w.r, w.nodes); n != from {
+			s.cur.Status.NodeName = n
+			break
+		}
+	}
+	w.moved[s.cur.UID] = true
+	w.pushRsv(s)
+	w.c.Op("api: reservation %s(%s) moved %s -> %s", s.cur.Name, s.cur.UID, from, s.cur.Status.NodeName)
+	w.c.Count("op_rsv_node_move", 1)
+	return true
+}
+
 func (w *c05World) opRsvTerminate() bool {
 	var cand []*c05RsvSlot
 	for _, s := range w.rsvs {
@@ -377,6 +405,12 @@ func c05GlobalEffect(old, new *schedulingv1alpha1.Reservation) *schedulingv1alph
 func (w *c05World) applyGlobal(obj *schedulingv1alpha1.Reservation) {
 	w.c.Op("informer(scheduler-wide handler): DeleteReservation(%s on %q)", obj.UID, obj.Status.NodeName)
 	ri := w.cache.DeleteReservation(obj)
+	if w.moved[obj.UID] && w.cache.reservationInfos[obj.UID] != nil {
+		// a delete for an older placement that the cache did not apply to the reservation it now holds on
+		// another node (only a tree that handles node moves that way gets here): the reservation stays
+		w.c.Count("stale_delete_of_moved_reservation_kept", 1)
+		return
+	}
 	if ri != nil && len(ri.AssignedPods) > 0 {
 		w.c.Count("reservations_removed_with_assigned_pods", 1)
 	}
@@ -944,7 +978,7 @@ func TestVerifC05Ledger(t *testing.T) {
 			w := &c05World{c: c, r: r, cache: cache,
 				rh: &reservationEventHandler{cache: cache, rrNominator: nm}, ph: &podEventHandler{cache: cache, nominator: nm},
 				fact: map[types.UID]types.UID{}, assumed: map[types.UID]types.UID{}, may: map[types.UID]types.UID{}, reqs: map[types.UID]corev1.ResourceList{},
-				owner: map[types.UID]types.UID{}, live: map[types.UID]bool{}, wentAway: map[types.UID]bool{}, dimsSince: map[string]map[corev1.ResourceName]bool{}, seenUnbound: map[types.UID]bool{}}
+				owner: map[types.UID]types.UID{}, live: map[types.UID]bool{}, wentAway: map[types.UID]bool{}, dimsSince: map[string]map[corev1.ResourceName]bool{}, seenUnbound: map[types.UID]bool{}, moved: map[types.UID]bool{}}
 			w.indexed = r.Bool()
 			if w.indexed {
 				cache.setReservationSelectorIndexConfig(&config.ReservationSelectorIndexArgs{Enabled: true, KeyPrefixes: []string{c05IdxPrefix}, Keys: []string{c05IdxKey}})
@@ -962,7 +996,8 @@ func TestVerifC05Ledger(t *testing.T) {
 				w.pods[0].operating = true
 			}
 			dimsMayChange := r.Pct(30)
-			c.Op("nodes=%v reservations=%d pods=%d operatingPod=%v selectorIndex=%v dimsMayChange=%v", w.nodes, len(w.rsvs), len(w.pods), w.pods[0].operating, w.indexed, dimsMayChange)
+			nodeMoves := r.Pct(10)
+			c.Op("nodes=%v reservations=%d pods=%d operatingPod=%v selectorIndex=%v dimsMayChange=%v nodeMoves=%v", w.nodes, len(w.rsvs), len(w.pods), w.pods[0].operating, w.indexed, dimsMayChange, nodeMoves)
 			deliverSome := func() {
 				for i, n := 0, r.Range(1, 2); i < n; i++ {
 					did := false
@@ -985,7 +1020,11 @@ func TestVerifC05Ledger(t *testing.T) {
 				for try := 0; try < 6 && !done; try++ {
 					switch r.Weighted(7, 5, 5, 2, 8, 3, 3, 16, 6, 9, 13, 4, 8, 4, 3, 7, 4, 18, 4) {
 					case 18:
-						done = w.opRsvSeenUnbound()
+						if nodeMoves && r.Pct(40) {
+							done = w.opRsvMove()
+						} else {
+							done = w.opRsvSeenUnbound()
+						}
 					case 0:
 						done = w.opRsvCreate()
 					case 1:
